@@ -5,7 +5,9 @@
 d="$1"; pid="$2"; shift 2
 mkdir -p /tmp/seedc; wt=/tmp/seedc/confirm_$pid
 LOCK="/verif/tools/nsrun.sh"   # tests run in a private network namespace
-rm -rf "$wt"; git -C /repo worktree prune; git -C /repo worktree add -q --detach "$wt" HEAD || exit 9
+git -C /repo worktree remove --force "$wt" 2>/dev/null; rm -rf "$wt"
+for try in 1 2 3 4 5; do git -C /repo worktree add -q --detach "$wt" HEAD 2>/dev/null && break; sleep 2; git -C /repo worktree prune; done
+[ -d "$wt/src" ] || { echo "WORKTREE FAILED"; exit 9; }
 demo=$(ls "$d"/demo.py "$d"/test_demo.py 2>/dev/null | head -1)
 run_demo() { (cd "$wt" && PYTHONPATH="$wt/src:$wt" timeout 300 /venv/bin/python "$demo" > "$d/demo_$1.log" 2>&1; echo $?); }
 echo "demo without change: exit $(run_demo clean)"
